@@ -73,6 +73,11 @@ def cases(tier, seed, args):
         out.append(dict(t='ll', kind='cwmm', L=[], K=2, D=3, N=[4296, 4500, 8200][i % 3], wca=(-1,), wca_type='tuple', iterations=10 if q else 20,
                         saliency=False, seed=int(rng.integers(1 << 30)), opts={}, offset=0.0, sal_class=False, noise=0.3, informed=False,
                         sorted_labels=True))
+    # peak-normalised recordings: the longest observation vector has norm one (exactly / within rounding), the others are shorter
+    for i in range(3 if q else 12):
+        out.append(dict(t='ll', kind='cwmm', L=[[], [2]][i % 2], K=2, D=3, N=[60, 120, 90][i % 3], wca=(-1,), wca_type='tuple', iterations=8 if q else 16,
+                        saliency=False, seed=int(rng.integers(1 << 30)), opts={}, offset=0.0, sal_class=False, noise=[0.25, 0.3, 0.2][i % 3], informed=bool(i % 2),
+                        peak=True))
     # embeddings of the integration model handed over as a transposed view / in Fortran order (same values)
     for i in range(8 if q else 24):
         out.append(dict(t='ll', kind='gcacgmm', L=[[4], [2], [3], [8]][i % 4], K=2, D=3, N=[100, 200, 60, 40][i % 4], wca=[(-1,), (-3, -1)][i % 2], wca_type='tuple',
@@ -184,6 +189,10 @@ def run_case(case):
         if case['seed'] % 2:
             sig[1:] = 0.25
         data['y'] = proto[lab0] + (sig[lab0] / np.sqrt(2))[..., None] * (rng.normal(size=(*L, N, D)) + 1j * rng.normal(size=(*L, N, D)))
+    if case.get('peak'):
+        mag = rng.uniform(0.7, 1.0, size=data['y'].shape[:-1] + (1,))
+        yy_ = ml.unit(data['y']) * mag
+        data['y'] = yy_ / np.max(np.linalg.norm(yy_, axis=-1))
     lab = None
     if case.get('sal_class') and kind == 'cacgmm':
         # overlapping anisotropic cACG sources: y = A_k x
